@@ -135,7 +135,8 @@ def gen_axis(rng, kind, n, ncat):
             longest = max(pool, key=len)
             missing = [longest + "9", "~absent"]
         labels = [rng.choice(pool + missing) for _ in range(n)]
-    return {"kind": "cat", "labels": labels, "categories": cats, "order": order, "alphabet": alphabet}
+    return {"kind": "cat", "labels": labels, "categories": cats, "order": order, "alphabet": alphabet,
+            "jitter": rng.choice(["none", "none", "uniform", "on_then_off"])}
 
 
 def make_column(d, name, ax):
@@ -149,7 +150,17 @@ def make_column(d, name, ax):
         d.add_component(arr, name)
     else:
         cats = None if ax["categories"] is None else np.array(ax["categories"])
-        d.add_component(CategoricalComponent(np.array(ax["labels"]), categories=cats), name)
+        # display jitter: the codes glue reports are then position +- 0.5; the selection is by label and must not care
+        if ax["jitter"] == "uniform":
+            comp = CategoricalComponent(np.array(ax["labels"]), categories=cats, jitter="uniform")
+            comp.codes
+        else:
+            comp = CategoricalComponent(np.array(ax["labels"]), categories=cats)
+            if ax["jitter"] == "on_then_off":
+                comp.jitter("uniform")
+                comp.codes
+                comp.jitter(None)
+        d.add_component(comp, name)
 
 
 def positions(ax):
@@ -531,7 +542,13 @@ def run_instance(ctx, forced_kind=None):
             continue
         ctx.count("category_code_comparisons")
         codes = np.asarray(d.get_component(comp_att).codes, dtype=float)
-        if list(cat_arr) != list(cats) or not np.array_equal(codes, pos, equal_nan=True):
+        a_ = ax if name == "x" else ay
+        ctx.count("categorical_axis_jitter:" + a_["jitter"])
+        if a_["jitter"] == "uniform":
+            same = bool(np.array_equal(np.isnan(codes), np.isnan(pos)) and np.all(np.abs(codes - pos)[~np.isnan(pos)] <= 0.5))
+        else:
+            same = bool(np.array_equal(codes, pos, equal_nan=True))
+        if list(cat_arr) != list(cats) or not same:
             ctx.violation({"kind": "category_codes_mismatch", "order": orders[name + "_order"]},
                           {"labels": (ax if name == "x" else ay)["labels"], "categories": cats, "glue_categories": list(cat_arr),
                            "codes": codes, "expected": pos})
@@ -542,7 +559,8 @@ def run_instance(ctx, forced_kind=None):
     magnitude = sorted(set("%g" % f for f in (fx, fy) if f != 1.0))
     dtypes = sorted(set(a_["dtype"] for a_ in (ax, ay) if a_["kind"] == "num" and a_["dtype"] != "<f8"))
     detail = lambda **kw: dict({"roi": desc, "meta": meta, "x": ax, "y": ay, "param_type": ptype, "vertices": vertices}, **kw)
-    sig_base = dict(kinds, path=path, rotated=rotated, param_type=ptype, axis_factors=magnitude, numeric_dtypes=dtypes)
+    jitters = sorted(set(a_["jitter"] for a_ in (ax, ay) if a_["kind"] == "cat" and a_["jitter"] != "none"))
+    sig_base = dict(kinds, path=path, rotated=rotated, param_type=ptype, axis_factors=magnitude, numeric_dtypes=dtypes, jitter=jitters)
     if rk == "categorical":
         roi = CategoricalROI(arg)
         member = set(chosen)
@@ -753,6 +771,9 @@ def floors(counters, tier):
     for e in ("on_position", "position_pm_1e-6", "half_position", "vertex_on_position"):
         if g("edge_class:" + e, 0) < 100:
             out.append("fewer than 100 region edges of class %s" % e)
+    for j in ("none", "uniform", "on_then_off"):
+        if g("categorical_axis_jitter:" + j, 0) < 200:
+            out.append("fewer than 200 categorical axes with jitter %s" % j)
     for v in ("get_mask", "get_mask_twice", "state_copy", "subset_in_collection", "fault_first"):
         if g("via:" + v, 0) < 150:
             out.append("fewer than 150 masks obtained via %s" % v)
